@@ -853,6 +853,14 @@ wild_atom = st.one_of(
 )
 
 
+def _tame(e):
+    if isinstance(e, list):
+        if len(e) == 2 and e[0] == 'num' and isinstance(e[1], int) and abs(e[1]) > 400:
+            return ['num', 400]
+        return [_tame(x) for x in e]
+    return e
+
+
 @st.composite
 def wild_expr(draw, depth=2):
     if depth <= 0 or draw(st.integers(0, 9)) < 3:
@@ -871,7 +879,12 @@ def wild_expr(draw, depth=2):
     if c == 6:
         return ['neg', draw(w())]
     if c <= 9:
-        return ['call', draw(st.sampled_from(FUNC_NAMES)), draw(st.lists(w(), max_size=4))]
+        fn = draw(st.sampled_from(FUNC_NAMES))
+        args = draw(st.lists(w(), max_size=4))
+        if fn == 'round':
+            # round(x, -N) on an int computes 10**N: with a 400-digit N that is resource exhaustion, which no listed property speaks about
+            args = args[:1] + [_tame(a) for a in args[1:]]
+        return ['call', fn, args]
     if c == 10:
         return ['meth', draw(w()), draw(st.sampled_from(['lower', 'upper', 'strip', 'startswith', 'endswith', 'replace', 'format', 'split', 'join', 'keys', '__class__'])),
                 draw(st.lists(w(), max_size=2))]
